@@ -660,7 +660,16 @@ def rule_extract(ctx):
                   "%s is assigned under extension arm(s) %s, expected %s" % (name, sorted(arms), var), ctx.loc(b))
 
 
+def rule_reader_admits(ctx):
+    """a ClientHello reaches the fingerprint code through the record reader: what the reader refuses is never fingerprinted (shared
+    with C08.R1/R4: complete record handed over, cap between the largest legal record and 64 KiB)"""
+    from ..engine import report as R
+    from . import C08
+    C08.rule_reader(R.Retag(ctx, "C08."))
+
+
 def run(ctx):
+    rule_reader_admits(ctx)
     rule_R1(ctx)
     rule_R2_R3_R4(ctx)
     rule_R8(ctx)
